@@ -21,7 +21,7 @@ REQUIRED_COUNTERS = ["histories", "calls_checked", "ledger_checks", "input_hash_
 ANCHOR_FUNCS = ["Data.get_scores", "Data._get_score"]
 TIMEOUT = {"quick": 1500, "thorough": 7200}
 
-KINDS = ["plain", "obsrange", "clim", "pit", "ens"]
+KINDS = ["plain", "obsrange", "clim", "pit", "ens", "nccdf"]
 
 
 def plan(tier, seed):
@@ -54,6 +54,14 @@ def menu(kind):
         m[9] = ([("ens", 0)], 0, "all", None)          # differs from m[4] only in the member number
         m[14] = ([("obs",), ("ens", 1)], 1, "leadtime", 0)
         m[15] = ([("obs",), ("ens", 0)], 1, "leadtime", 0)
+    if kind == "nccdf":
+        # NetCDF files with stored probabilities / quantiles and per-variable fill values: every variable is read on demand
+        m[2] = ([("thr", 5.0)], 0, "all", None)
+        m[4] = ([("obs",), ("thr", 5.0)], 1, "no", 0)
+        m[6] = ([("q", 0.5)], 0, "all", None)
+        m[10] = ([("thr", 10.0)], 1, "all", None)
+        m[11] = ([("thr", 5.0)], 1, "leadtime", 0)
+        m[13] = ([("obs",), ("q", 0.9)], 1, "all", None)
     if kind == "pit":
         m[11] = (["pit"], 0, "all", None)
         m[12] = (["obs", "pit"], 1, "no", 0)
@@ -62,6 +70,15 @@ def menu(kind):
 
 
 def make_ds(rng, kind):
+    if kind == "nccdf":
+        from vmon.props import c02
+        ds = gen.make_dataset(rng, n_inputs=2, fmt="nc", prob=True, miss=0.2, sparse=0.0, max_t=3, max_l=3, max_s=2, same_dims=False,
+                              thresholds=[5.0, 10.0], quantiles=[0.5, 0.9])
+        for inp in ds["inputs"]:
+            st = c02.shuffled_nc_style(rng, inp, identity=True)
+            st["enc"] = ["customfill", "mvattr", "fill"]
+            inp["style"] = st
+        return ds
     ds = gen.make_dataset(rng, n_inputs=2, fmt="text", clim=(kind == "clim"), pit=(kind == "pit"), miss=0.2 if kind != "ens" else 0.05,
                           sparse=0.1, max_t=3, max_l=3, max_s=2, same_dims=False, ens=(kind == "ens"), members=3)
     # at least two times and two lead times in common so that every menu entry exists
